@@ -270,6 +270,13 @@ var c19Programs = []string{"Y(a)+Y(b)*Y(c)", "If(Y(a)>1,Y(b),Y(c))", "Y(c)[Y(b)]
 
 var c19Templates = []string{"{{#a}}x{{B}}{{#b}}y{{{a}}}{{/b}}{{/a}}!{{^c}}z{{/c}}", "Hello {{a}}, {{{B}}}{{#if c}}+{{/if}}", "{{#unless a}}no{{/unless}}{{#a}}{{#a}}{{a}}{{/a}}{{/a}}"}
 
+var c19FunctionPrograms = []string{
+	"Rnd() >= 0 AND Rnd() < 1 AND Random() >= 0 AND Random() < 1 AND Ticks() > 0 AND Now() IS NOT NULL",
+	"Abs(-2) = 2 AND Max(1,3) = 3 AND Min(1,3) = 1 AND Sum(1,2,3) = 6 AND If(TRUE,1,2) = 1 AND Choose(2,'a','b') = 'b' AND E() > 2 AND Pi() > 3 AND Contains('abc','b') AND Array(1,2)[1] = 2 AND Empty('')",
+	"Exp(0) = 1 AND Ln(1) = 0 AND Log(1) = 0 AND Log10(100) = 2 AND Ceil(1.2) = 2 AND Ceiling(1.2) = 2 AND Floor(1.8) = 1 AND Round(1.4) = 1 AND Trunc(1.7) = 1 AND Truncate(1.7) = 1 AND Sqrt(4) = 2 AND Sqr(4) = 2",
+	"Cos(0) = 1 AND Sin(0) = 0 AND Tan(0) = 0 AND Acos(1) = 0 AND Asin(0) = 0 AND Atan(0) = 0 AND DayOfWeek(Date(2020,1,1)) >= 0 AND Date(2020,1,1) IS NOT NULL AND TimeSpan(1,0,0,0) IS NOT NULL",
+}
+
 func c19Harnesses() []c19Harness {
 	hs := []c19Harness{}
 	for _, prog := range c19Programs {
@@ -387,6 +394,31 @@ func c19Harnesses() []c19Harness {
 			}
 			return bodies, func() uint64 { return 0 }
 		}})
+	// H5: separate calculators calling the clock, random and every other default function (the
+	// non-deterministic ones inside predicates whose value is fixed)
+	for k, prog := range c19FunctionPrograms {
+		k, prog := k, prog
+		hs = append(hs, c19Harness{name: fmt.Sprintf("H5 separate calculators, default functions #%d", k), build: func(n int, results []string) ([]func(), func() uint64) {
+			calcs := make([]*calculator.ExpressionCalculator, n)
+			for i := range calcs {
+				calcs[i] = calculator.NewExpressionCalculator()
+				if err := calcs[i].SetExpression(prog); err != nil {
+					panic("harness program rejected: " + prog + ": " + err.Error())
+				}
+			}
+			bodies := []func(){}
+			for i := 0; i < n; i++ {
+				i := i
+				bodies = append(bodies, func() {
+					results[i] = safeObs(func() string {
+						r, err := calcs[i].Evaluate()
+						return resultStr(r, err, nil)
+					})
+				})
+			}
+			return bodies, func() uint64 { return 0 }
+		}})
+	}
 	for _, o := range owns {
 		o := o
 		hs = append(hs, c19Harness{name: "H3 separate instances: " + o.name, build: func(n int, results []string) ([]func(), func() uint64) {
@@ -591,7 +623,7 @@ func init() {
 		ID:    "C19",
 		Level: "model_checking",
 		Rule: "(a) every compiled expression of C01's tree set and every template of C10's AST set: all evaluation histories of length<=3 over 3 variable sets; after every evaluation deep snapshots (reflection walk incl. unexported fields) of the compiled program with its constants, the variable collections and the function tables are unchanged and the result equals the first result for that variable set; changes anywhere else (whole instance, all package-level variables of all repository packages, discovered at check time) are counted as suspects; " +
-			"(b) cooperative-scheduler DFS over ALL schedules up to the preemption bound of 2 (thorough: 3) threads evaluating one shared calculator / one shared template with separate variable collections, and threads each owning a tokenizer / calculator / template; yield points = API callbacks plus a yield inserted at every function entry and loop head (except range loops over map parameters) of 10 evaluator, parser and tokenizer source files (regenerated from the working tree by a go/ast tool, injected with go build -overlay); every thread's result must equal its sequential result; one recorded schedule is replayed and must be deterministic; " +
+			"(b) cooperative-scheduler DFS over ALL schedules up to the preemption bound of 2 (thorough: 3) threads evaluating one shared calculator / one shared template with separate variable collections, and threads each owning a tokenizer / calculator / template (incl. calculators that call every default function, the clock and random ones inside predicates of fixed value); yield points = API callbacks plus a yield inserted at every function entry and loop head (except range loops over map parameters) of 10 evaluator, parser and tokenizer source files (regenerated from the working tree by a go/ast tool, injected with go build -overlay); every thread's result must equal its sequential result; one recorded schedule is replayed and must be deterministic; " +
 			"(c) auxiliary free-running pass of the same bodies under the Go race detector (sampling; reported separately); non-trivial = programs evaluated / harnesses with more than one schedule",
 		Assume: []string{"interleavings are explored at yield-point granularity (function entries, loop heads, callbacks), not at memory-access granularity; weak-memory effects are outside a scheduler-based exploration", "the race-detector pass samples real schedules and is not exhaustive"},
 		Spaces: func(tier string) []fw.Space {
@@ -651,9 +683,9 @@ func init() {
 		},
 		Bounds: func(tier string) string {
 			if tier == "thorough" {
-				return "purity: 4.8k expressions and 33k templates x 39 histories; schedules: 17 harnesses, 2 threads <=3 preemptions (<=2 for harnesses with >100 yield points) and 3 threads <=2 (<=1) preemptions, cap 3M schedules per harness (reported if hit); race pass 300 rounds"
+				return "purity: 4.8k expressions and 33k templates x 39 histories; schedules: 21 harnesses, 2 threads <=3 preemptions (<=2 for harnesses with >100 yield points) and 3 threads <=2 (<=1) preemptions, cap 3M schedules per harness (reported if hit); race pass 300 rounds"
 			}
-			return "purity: 4.8k expressions and 4.8k templates x 39 histories; schedules: 17 harnesses, 2 threads <=2 preemptions (<=1 for harnesses with >150 yield points), all complete; race pass 30 rounds"
+			return "purity: 4.8k expressions and 4.8k templates x 39 histories; schedules: 21 harnesses, 2 threads <=2 preemptions (<=1 for harnesses with >150 yield points), all complete; race pass 30 rounds"
 		},
 	})
 }
